@@ -10,13 +10,17 @@ package idna
 //                     (Digits / code points are enumerated, not symbolic: the solver could not decide the multiply/divide
 //                     chains of RFC 3492's variable-length integers and bias adaptation within its time limits.)
 //   VerifC50_alabel   A-label rule, every profile (Punycode, Lookup, Display, Registration, New()): the label "xn--"+p with
-//                     p = 1..4 (thorough 5) symbolic bytes from [a-z0-9-] whose payload is invalid or decodes to only
+//                     p = 1..3 (thorough 5) symbolic bytes from [a-z0-9-] whose payload is invalid or decodes to only
 //                     ASCII must be rejected by ToASCII and ToUnicode.
 //   VerifC50_idem     Idempotence on ASCII labels: x = 1..3 (thorough 4) symbolic ASCII bytes (letters of both cases,
 //                     digits, '-', '.', '_'), every profile: if ToASCII accepts x then ToASCII(ToASCII(x)) == ToASCII(x)
 //                     and ToASCII(ToUnicode(x)) == ToASCII(x); the same for "xn--"+p restricted as in VerifC50_alabel.
 //
-// Known finding C50-ascii-alabel: see known_findings.txt and repro/C50.
+//   VerifC50_surrogate Punycode around the surrogate range (needs 4 digits, beyond VerifC50_decenc's enumeration): payloads
+//                     d+"b9b" with d enumerated over [a-z0-9] decode to U+D7F8..U+D81B; encode(decode(s)) == s, and for
+//                     the non-validating profiles (Punycode, New()) ToASCII idempotence and ToASCII(ToUnicode(x)).
+//
+// Known findings C50-ascii-alabel and C50-surrogate-payload: see known_findings.txt and repro/C50.
 //
 // Sensitivity (mut.sh):
 //   punycode.go decode `if digit < t {` -> `<=`                                     caught (encdec)
@@ -30,6 +34,7 @@ func init() {
 	vfRegister("VerifC50_encdec", VerifC50_encdec)
 	vfRegister("VerifC50_alabel", VerifC50_alabel)
 	vfRegister("VerifC50_idem", VerifC50_idem)
+	vfRegister("VerifC50_surrogate", VerifC50_surrogate)
 }
 
 func c50ldh(label string, n int) string {
@@ -154,7 +159,7 @@ func c50classify(p string) (bad, asciiOnly bool, decoded string) {
 }
 
 func VerifC50_alabel() {
-	p := c50ldh("payload", vfLen("len", 1, 4+vfTier()))
+	p := c50ldh("payload", vfLen("len", 1, 3+2*vfTier()))
 	bad, asciiOnly, _ := c50classify(p)
 	vfAssume(bad || asciiOnly) // a payload that decodes to non-ASCII is a candidate A-label, not the subject of this rule
 	prof := c50profile(vfChoice("profile", 5))
@@ -206,5 +211,37 @@ func VerifC50_idem() {
 	vfAssert(err3 == nil && a3 == a1, "ToASCII(ToUnicode(x)) == ToASCII(x)")
 	vfObserveStr("ascii", a1)
 	vfReach("accepted")
+	vfReach("end")
+}
+
+func VerifC50_surrogate() {
+	p := c50digits(1) + "b9b"
+	u, err := decode(p)
+	vfAssert(err == nil, "these payloads are well-formed generalised variable-length integers")
+	hasFFFD := false
+	for _, r := range u {
+		if r == 0xfffd {
+			hasFFFD = true
+		}
+	}
+	e, err2 := encode("", u)
+	if !hasFFFD {
+		vfReach("scalar") // (paths with a surrogate end at the known-finding assertion: witnessed by the KNOWN-FINDING line)
+	}
+	prof := c50profile(4 * vfChoice("profile", 2)) // Punycode or New(): no label validation
+	x := "xn--" + p
+	a1, errA := prof.ToASCII(x)
+	if errA == nil {
+		a2, errA2 := prof.ToASCII(a1)
+		vfAssert(errA2 == nil && a2 == a1, "ToASCII(ToASCII(x)) == ToASCII(x)")
+		uu, _ := prof.ToUnicode(x)
+		a3, errA3 := prof.ToASCII(uu)
+		vfAssert(errA3 == nil && a3 == a1, "ToASCII(ToUnicode(x)) == ToASCII(x)")
+		vfReach("accepted")
+	}
+	vfObserveStr("encoded", e)
+	// kcond: decode produced U+FFFD, i.e. accepted the encoding of a surrogate code point U+D800..U+DFFF
+	// (asserted last: a known-finding path ends at its assertion)
+	vfAssertKF(err2 == nil && e == p, "encode(decode(s)) == s", "C50-surrogate-payload", hasFFFD)
 	vfReach("end")
 }
